@@ -167,10 +167,14 @@ def cflow(f):
 
 # ---------------------------------------------------------------------------- generators
 NS_LABELS = [{}, {"team": "a"}, {"team": "b"}, {"team": "a", "env": "prod"}, {"env": "prod"}]
+# (a label may carry the EMPTY value - `canary: ""` is legal: a selector entry with the empty value matches only pods that
+#  carry the key with that value, not pods without the key)
+NS_LABELS += [{"team": "a", "canary": ""}]
 POD_LABELS = [{}, {"app": "web"}, {"app": "db"}, {"app": "cli"}, {"app": "web", "tier": "fe"}, {"app": "db", "tier": "be"},
-              {"tier": "fe"}]
-POD_SELS = [{}, {"app": "web"}, {"app": "db"}, {"app": "cli"}, {"tier": "fe"}, {"app": "web", "tier": "fe"}]
-NS_SELS = [{}, {"team": "a"}, {"team": "b"}, {"env": "prod"}]
+              {"tier": "fe"}, {"canary": ""}, {"app": "web", "canary": ""}, {"app": "web", "canary": "yes"}]
+POD_SELS = [{}, {"app": "web"}, {"app": "db"}, {"app": "cli"}, {"tier": "fe"}, {"app": "web", "tier": "fe"}, {"canary": ""},
+            {"app": "web", "canary": ""}]
+NS_SELS = [{}, {"team": "a"}, {"team": "b"}, {"env": "prod"}, {"canary": ""}]
 PORTS = [("TCP", 80), ("TCP", 443), ("UDP", 53), ("TCP", 8080), ("UDP", 80)]
 BLOCKS = ["10.0.0.0/8", "10.0.0.0/16", "10.0.1.0/24", "10.0.1.77/24", "10.0.1.4/30", "192.168.0.0/16", "192.168.1.0/24",
           "172.16.5.9/32", "10.0.0.0/23", "10.0.2.0/23"]
